@@ -369,8 +369,26 @@ def checked_write(res, unit, other, bank, ob, addr, name, cls, row, raw, kw, has
     res.evaluations += 1
     res.distinct += 1
     res.hit("history_writes")
-    out = attempt(bus, cls.write_raw(addr, raw, **kw))
-    wit = {**wit, "lock_byte_before": before[2]}
+    # the same write through write(): the interpreted value, the same options
+    via = "write_raw"
+    try:
+        if (len(raw) + before[5] + res.evaluations) % 2 and not kw.get("allow_short_write"):
+            v_ = cls.raw_to_value(bytes(raw))
+            if cls.check_raw(bytes(raw)) is None and bytes(cls.value_to_raw(v_))[:len(raw)] == bytes(raw) and len(cls.value_to_raw(v_)) == len(raw):
+                via = "write"
+    except Exception:
+        via = "write_raw"
+    if via == "write":
+        res.hit("history_writes_via_write")
+        try:
+            gen_ = cls.write(addr, v_, **kw)
+        except Exception as e:
+            res.violation(f"C10/history/raised/{type(e).__name__}", f"{name}: write({v_!r}, {kw}) raised {type(e).__name__}: {e}", wit)
+            return False
+        out = attempt(bus, gen_)
+    else:
+        out = attempt(bus, cls.write_raw(addr, raw, **kw))
+    wit = {**wit, "lock_byte_before": before[2], "via": via}
     lockable = row.access == "nvm_rw_l"
     if out[0] == "exc":
         res.violation(f"C10/history/raised/{type(out[1]).__name__}",
@@ -383,8 +401,10 @@ def checked_write(res, unit, other, bank, ob, addr, name, cls, row, raw, kw, has
     now = list(bank.image)
     touches_lock = has_lock and (lockable or kw.get("force_unlock", False))
     if touches_lock:
-        if now[2] == 0x55:
-            res.violation("C10/history/left-unlocked", f"{name}: write_raw(.., {kw}) left the lock byte at 0x55", wit)
+        if now[2] != 0xFF:
+            res.violation("C10/history/left-unlocked", f"{name}: {via}(.., {kw}) left the lock byte at {now[2]:#04x} "
+                          f"(it was {before[2]:#04x} before): a write that unlocks the bank locks it again (0xFF)", wit)
+            return False
         now[2] = want[2] = None
     if now != want:
         diff = [(l, before[l], bank.image[l], want[l]) for l in range(255) if now[l] != want[l]]
